@@ -31,6 +31,10 @@ type PmOp struct {
 	Port  uint32 `json:"port"`
 	Netid string `json:"netid,omitempty"`
 	RProg uint32 `json:"rprog,omitempty"` // RPC program number of the call itself (0 = portmapper)
+	// PauseMs > 0: the call arrives in two parts (cut after PauseAt bytes, wrapped into the record) with this
+	// long a silence in between - always well inside the 30 s the portmapper waits for a record
+	PauseMs int `json:"pause_ms,omitempty"`
+	PauseAt int `json:"pause_at,omitempty"`
 }
 
 type PmScn struct {
@@ -400,6 +404,10 @@ func runPortmap(t *testing.T, scAny any, trace bool) *Outcome {
 				simrt.Probe("dump_of_empty_registry")
 			}
 			name := fmt.Sprintf("#%d v%d proc %d from %s", i, op.Vers, op.Proc, addr)
+			if op.PauseMs > 0 {
+				cl.PauseAt, cl.PauseFor = 1+op.PauseAt, time.Duration(op.PauseMs)*time.Millisecond
+				name += fmt.Sprintf(" (arriving in two parts, %d ms apart)", op.PauseMs)
+			}
 			rep, err := cl.RawCall(rprog, op.Vers, op.Proc, args)
 			if err != nil {
 				if _, dead := err.(*ErrNoReply); dead {
@@ -642,6 +650,10 @@ func genC27(r *simrt.Rand, tier string) any {
 		}
 		if r.Pct(3) {
 			op.RProg = 100003
+		}
+		if r.Pct(6) {
+			// a client on a slow link: the call arrives in two parts
+			op.PauseMs, op.PauseAt = []int{3, 250, 1600, 4000, 8000}[r.Int(5)], r.Int(200) // (the client reconnects after 20 s of silence; 20 + 8 s stays inside the 30 s the portmapper waits)
 		}
 		sc.Ops = append(sc.Ops, op)
 	}
